@@ -293,18 +293,218 @@ Ltac trace_facts :=
   | H : apply_keys _ _ _ _ = (_, _, _) |- _ => apply apply_keys_facts in H; destruct H as [? ?]
   | H : undo_pfx _ _ _ = (_, _, _) |- _ => apply undo_pfx_nosend in H
   | H : undo_keys _ _ _ = (_, _, _) |- _ => apply undo_keys_nosend in H
+  | H : (if ?b then _ else _) = (_, _, _) |- _ => destruct b
+  | H : (_, @nil titem, _) = (_, _, _) |- _ => inversion H; subst; clear H
   end.
 
 Lemma Forall_small_in l bad : Forall small l -> In bad l -> small bad.
 Proof. intros H Hi. rewrite Forall_forall in H. now apply H. Qed.
 
+(* lemma dispatch by syntactic head (never [try apply] a lemma on a goal with another head) *)
+Ltac slem0 :=
+  match goal with
+  | |- relS (change_state _) _ => apply change_state_S
+  | |- relS (purge_after_failed_undo) _ => apply purge_after_failed_undo_S
+  | |- relS (src_remove_all) _ => apply src_remove_all_S
+  | |- relS (tr_recv_all _ _) _ => apply tr_recv_all_S
+  | |- relS (recv_err _) _ => apply recv_err_S
+  | |- relS (receive_pdu _) _ => apply receive_pdu_S
+  | |- relS (handle_error_pdu _) _ => apply handle_error_pdu_S
+  | |- relS (send_serial_query) _ => apply send_serial_query_S
+  | |- relS (send_reset_query) _ => apply send_reset_query_S
+  | |- relS (tr_open) _ => apply tr_open_S
+  end.
+
 Theorem process_eod_S p v4 v6 ks w :
   small p -> Forall small v4 -> Forall small v6 -> Forall small ks -> relS (process_eod p v4 v6 ks) w.
 Proof.
   intros Hp H4 H6 Hk. unfold process_eod.
-  repeat sstep; subst; trace_facts;
-    try apply change_state_S; try apply purge_after_failed_undo_S;
-    try (apply report_update_failure_S; eapply Forall_small_in; eauto; fail);
-    try (apply send_error_from_host_S; apply small_rep_ok; [exact Hp|pose proof (len_eod_session (session_id (sk w)) (get16 p 2)); lia]);
-    try (sprim; rewrite ?apply_eod_intervals_version; lia).
+  repeat sstep. all: subst; trace_facts. all: try slem0.
+  all: try match goal with |- relS (report_update_failure _ _ _) _ =>
+         apply report_update_failure_S;
+         first [eapply Forall_small_in; [exact H4|eassumption] | eapply Forall_small_in; [exact H6|eassumption]
+               | eapply Forall_small_in; [exact Hk|eassumption]] end.
+  all: try match goal with |- relS (send_error_from_host _ _ _) _ =>
+         apply send_error_from_host_S; apply small_rep_ok; [exact Hp|pose proof (len_eod_session (session_id (sk w)) (get16 p 2)); lia] end.
+  all: sprim; rewrite ?apply_eod_intervals_version; lia.
+Qed.
+
+Lemma Forall_small_snoc l p : Forall small l -> small p -> Forall small (l ++ [p]).
+Proof. intros. apply Forall_app. split; [assumption|now constructor]. Qed.
+
+Lemma pdu_ok_is_small p : pdu_ok p -> (nthb p 1 =? c_ERROR) = false -> small p.
+Proof. intros Hok He. apply Z.eqb_neq in He. unfold small. now apply pdu_ok_small. Qed.
+
+Lemma firstn8_rep_ok (p text : list byte) : zlen text <= 100 -> rep_ok (firstn 8 p) text.
+Proof. intros. unfold rep_ok. pose proof (zlen_firstn_le p 8). change c_RTR_MAX_PDU_LEN with 3248. lia. Qed.
+
+Theorem store_loop_S fuel : forall v4 v6 ks w,
+  Forall small v4 -> Forall small v6 -> Forall small ks -> relS (store_loop fuel v4 v6 ks) w.
+Proof.
+  induction fuel as [|f IH]; intros v4 v6 ks w H4 H6 Hk; cbn [store_loop]; [apply (rel_ret S S_refl)|].
+  sstep; [apply receive_pdu_S|].
+  destruct a as [c|p]; [repeat sstep; slem0|].
+  apply receive_pdu_ok in Heq.
+  assert (Hsm : (nthb p 1 =? c_ERROR) = false -> small p) by (apply pdu_ok_is_small; exact Heq).
+  repeat sstep. all: try slem0.
+  all: try match goal with |- relS (store_loop _ _ _ _) _ => apply IH; auto; apply Forall_small_snoc; auto; apply Hsm end.
+  all: try match goal with |- relS (process_eod _ _ _ _) _ => apply process_eod_S; auto; apply Hsm end.
+  all: try match goal with |- relS (send_error_from_host (firstn 8 _) _ _) _ =>
+             apply send_error_from_host_S; apply firstn8_rep_ok; rewrite ?len_unexp_store; lia end.
+  all: try match goal with |- relS (send_error_from_host _ _ _) _ =>
+             apply send_error_from_host_S; apply small_rep_ok; [apply Hsm|rewrite ?len_pfx_len; lia] end.
+  (* the type tests in the context decide that the PDU is not an Error Report *)
+  all: repeat match goal with H : (_ || _) && _ = true |- _ => apply andb_true_iff in H; destruct H as [H _] end;
+       repeat match goal with H : _ || _ = true |- _ => apply orb_true_iff in H; destruct H as [H|H] end;
+       repeat match goal with H : (nthb _ 1 =? _) = true |- _ => apply Z.eqb_eq in H; rewrite H end; reflexivity.
+Qed.
+
+Lemma receive_and_store_S fuel w : relS (receive_and_store fuel) w.
+Proof.
+  unfold receive_and_store. repeat sstep.
+  - apply store_loop_S; constructor.
+  - sprim. destruct (resetting _); vred; lia.
+Qed.
+
+Lemma sync_first_S fuel : forall w, relS (sync_first fuel) w.
+Proof.
+  induction fuel as [|f IH]; intros; cbn [sync_first]; [apply (rel_ret S S_refl)|].
+  repeat sstep. all: try slem0. all: try apply IH.
+  unfold rel; unfold_prims. apply (S_intro _ _ []); [mfin|reflexivity|nosend_tac|vred; lia].
+Qed.
+
+Theorem rtr_sync_S fuel w : relS (rtr_sync fuel) w.
+Proof.
+  unfold rtr_sync. repeat sstep. all: try slem0.
+  all: try match goal with |- relS (sync_first _) _ => apply sync_first_S end.
+  all: try match goal with |- relS (receive_and_store _) _ => apply receive_and_store_S end.
+  all: try match goal with |- relS (send_error_from_host (firstn 8 _) _ _) _ =>
+             apply send_error_from_host_S; apply firstn8_rep_ok; rewrite ?len_unexp_sync; lia end.
+  all: try match goal with |- relS (send_error_from_host [] _ _) _ =>
+             apply send_error_from_host_S; rep_tac end.
+  all: try (sprim; fail).
+  all: unfold rel; unfold_prims; destruct (negb _); (apply (S_intro _ _ []); [mfin|reflexivity|nosend_tac|vred; lia]).
+Qed.
+
+Lemma wait_for_sync_S w : relS wait_for_sync w.
+Proof. unfold wait_for_sync. repeat sstep. all: slem0. Qed.
+
+Lemma purge_outdated_S w : relS purge_outdated w.
+Proof. unfold purge_outdated. repeat sstep. all: try slem0. all: sprim. Qed.
+
+Theorem fsm_step_S fuel w : relS (fsm_step fuel) w.
+Proof.
+  unfold fsm_step. repeat sstep. all: try slem0.
+  all: try match goal with |- relS (purge_outdated) _ => apply purge_outdated_S end.
+  all: try match goal with |- relS (rtr_sync _) _ => apply rtr_sync_S end.
+  all: try match goal with |- relS (wait_for_sync) _ => apply wait_for_sync_S end.
+  all: sprim.
+Qed.
+
+Lemma rtr_stop_S w : relS rtr_stop w.
+Proof. unfold rtr_stop. repeat sstep. all: try slem0. all: sprim. Qed.
+Lemma dump_S tag w : relS (dump tag) w.
+Proof. unfold rel, dump. sprim. Qed.
+
+Theorem run_fsm_S n fuel : forall w, S w (run_fsm n fuel w).
+Proof.
+  induction n as [|n IH]; intros w; cbn [run_fsm]; [apply S_refl|].
+  pose proof (fsm_step_S fuel w) as H. unfold rel in H.
+  destruct (fsm_step fuel w) as [[] w'|[why|] w'].
+  - eapply S_trans; [exact H|apply IH].
+  - exact H.
+  - assert (Hs : relS (mdo _ <- rtr_stop; mdo _ <- dump 1; modify_sk (fun s => upd_st s c_RTR_CONNECTING)) w').
+    { repeat sstep; [apply rtr_stop_S|apply dump_S|sprim]. }
+    unfold rel in Hs.
+    destruct ((mdo _ <- rtr_stop; mdo _ <- dump 1; modify_sk (fun s => upd_st s c_RTR_CONNECTING)) w') as [[] w2|e w2].
+    + eapply S_trans; [exact H|]. eapply S_trans; [exact Hs|apply IH].
+    + eapply S_trans; eauto.
+Qed.
+
+(* ---------- whole runs ---------- *)
+From RtrV Require Import Rtr.VersionProofs.
+
+(* the bytes handed to the transport, forgetting how they were split into writes *)
+Inductive sent_stream (hi lo : Z) : list byte -> Prop :=
+| ss_nil : sent_stream hi lo []
+| ss_pdu v b rest : lo <= v <= hi -> wf_pdu (v mod 256) b -> sent_stream hi lo rest -> sent_stream hi lo (b ++ rest)
+| ss_trunc v b pre missing rest : lo <= v <= hi -> wf_pdu (v mod 256) b -> b = pre ++ missing -> missing <> [] ->
+    sent_stream hi lo rest -> sent_stream hi lo (pre ++ rest).
+
+Lemma sent_stream_mono hi hi' lo l : hi <= hi' -> sent_stream hi lo l -> sent_stream hi' lo l.
+Proof.
+  intros Hh H. induction H.
+  - constructor.
+  - apply (ss_pdu hi' lo v); [lia|assumption|assumption].
+  - apply (ss_trunc hi' lo v b pre missing); [lia|assumption|assumption|assumption|assumption].
+Qed.
+
+Theorem sent_ok_stream hi lo l : sent_ok hi lo l -> sent_stream hi lo (sent_of l).
+Proof.
+  induction 1 as [hi lo Hl|hi lo x r Hx H IH|hi lo v b c g r Hv Hwf Ha H IH].
+  - constructor.
+  - destruct x; try discriminate; exact IH.
+  - rewrite sent_of_app. pose proof (sent_ok_le _ _ _ H) as Hlo.
+    apply (sent_stream_mono v hi) in IH; [|exact Hv].
+    destruct (attempt_sent _ _ _ Ha) as (rest & Hb & Hc & Hf). destruct c.
+    + rewrite (Hc eq_refl), app_nil_r in Hb. rewrite <- Hb. apply (ss_pdu hi lo v); [lia|assumption|assumption].
+    + apply (ss_trunc hi lo v b (sent_of g) rest); [lia|assumption|assumption|auto|assumption].
+Qed.
+
+Lemma dump_out tag w : exists d, (match dump tag w with Ok _ w' => w' | Exc _ w' => w' end) =
+  mkW (sk w) (pfx w) (keys w) (evs w) (opens w) (sends w) (now w) (d :: out w) /\ is_send d = false.
+Proof. unfold dump, emit. eexists. split; reflexivity. Qed.
+
+(* C14 (3): every run of the whole model, for every environment *)
+Theorem run_script_sent n fuel refresh expire retry mode P K es os ss :
+  exists lo, 0 <= lo <= c_RTR_PROTOCOL_MAX_SUPPORTED_VERSION /\
+    sent_ok c_RTR_PROTOCOL_MAX_SUPPORTED_VERSION lo (run_script n fuel refresh expire retry mode P K es os ss).
+Proof.
+  unfold run_script. destruct (negb (init_ok refresh expire retry)).
+  { exists 1. split; [change c_RTR_PROTOCOL_MAX_SUPPORTED_VERSION with 1; lia|apply so_nil; change c_RTR_PROTOCOL_MAX_SUPPORTED_VERSION with 1; lia]. }
+  cbv zeta.
+  set (w0 := mkW (init_sock refresh expire retry mode) P K es os ss 1000 []).
+  destruct (dump_out 0 w0) as (d0 & -> & Hd0). cbn [sk pfx keys evs opens sends now out].
+  set (w1 := mkW (upd_st (sk w0) c_RTR_CONNECTING) (pfx w0) (keys w0) (evs w0) (opens w0) (sends w0) (now w0) (d0 :: out w0)).
+  pose proof (run_fsm_S n fuel w1) as (_ & items & Hout & Hs).
+  pose proof (run_fsm_V n fuel w1) as (Hv1 & Hv2).
+  destruct (dump_out 2 (run_fsm n fuel w1)) as (d2 & -> & Hd2). cbn [out]. rewrite Hout.
+  exists (version (sk (run_fsm n fuel w1))).
+  assert (Hver : version (sk w1) = c_RTR_PROTOCOL_MAX_SUPPORTED_VERSION) by reflexivity.
+  rewrite Hver in *. split; [change c_RTR_PROTOCOL_MAX_SUPPORTED_VERSION with 1 in *; lia|].
+  cbn [rev out w1 w0 app]. rewrite !rev_app_distr, rev_involutive. cbn [rev app].
+  apply so_other; [exact Hd0|].
+  eapply sent_ok_app; [exact Hs|]. apply so_other; [exact Hd2|]. apply so_nil. lia.
+Qed.
+
+Theorem run_script_stream n fuel refresh expire retry mode P K es os ss :
+  sent_stream 1 0 (sent_of (run_script n fuel refresh expire retry mode P K es os ss)).
+Proof.
+  destruct (run_script_sent n fuel refresh expire retry mode P K es os ss) as (lo & Hlo & H).
+  apply sent_ok_stream in H. change c_RTR_PROTOCOL_MAX_SUPPORTED_VERSION with 1 in *.
+  clear -H Hlo. induction H.
+  - constructor.
+  - apply (ss_pdu 1 0 v); [lia|assumption|assumption].
+  - apply (ss_trunc 1 0 v b pre missing); [lia|assumption|assumption|assumption|assumption].
+Qed.
+
+(* fuel independence of whole runs: the receive script bounds the number of PDUs *)
+Lemma fsm_step_fuel f1 f2 w : (ev_bytes (evs w) < 8 * f1)%nat -> (f1 <= f2)%nat -> fsm_step f1 w = fsm_step f2 w.
+Proof.
+  intros Hb Hf. unfold fsm_step. apply bind_cong2; [reflexivity|]. intros s w1 Hs. unfold get_sk in Hs. injection Hs as <- <-.
+  repeat match goal with |- (if ?c then _ else _) _ = (if ?c then _ else _) _ => destruct c; try reflexivity end.
+  apply bind_cong2; [|reflexivity]. now apply rtr_sync_fuel.
+Qed.
+
+Theorem run_fsm_fuel n : forall f1 f2 w, (ev_bytes (evs w) < 8 * f1)%nat -> (f1 <= f2)%nat -> run_fsm n f1 w = run_fsm n f2 w.
+Proof.
+  induction n as [|n IH]; intros f1 f2 w Hb Hf; [reflexivity|]. cbn [run_fsm].
+  rewrite (fsm_step_fuel f1 f2 w Hb Hf).
+  pose proof (fsm_step_S f2 w) as H. unfold rel in H.
+  destruct (fsm_step f2 w) as [[] w'|[why|] w']; [apply IH; [destruct H as [Hm _]; unfold M in Hm; lia|exact Hf]|reflexivity|].
+  assert (Hs : relS (mdo _ <- rtr_stop; mdo _ <- dump 1; modify_sk (fun s => upd_st s c_RTR_CONNECTING)) w').
+  { repeat sstep; [apply rtr_stop_S|apply dump_S|sprim]. }
+  unfold rel in Hs.
+  destruct ((mdo _ <- rtr_stop; mdo _ <- dump 1; modify_sk (fun s => upd_st s c_RTR_CONNECTING)) w') as [[] w2|e w2]; [|reflexivity].
+  apply IH; [destruct H as [Hm _]; destruct Hs as [Hm2 _]; unfold M in *; lia|exact Hf].
 Qed.
